@@ -61,6 +61,17 @@ def has_switch(body):
 
 def run(tier):
     ck = report.Check("C12", tier, level="other")
+    check_rows(ck)
+    return ck.finish(
+        "every function of cglue that builds a CSliceRef/CSliceMut, rebuilds a slice from one, decides UTF-8 validity, or converts between "
+        "Option/Result/tuples and their C forms is checked by origin tracing over its MIR: (as_ptr,len) of one argument in, "
+        "(data,len) of one view out, no length branch, variant V -> variant V with payload field i moved to field i, no calls",
+        rule_text="obligation = one (function, clause); functions are discovered by what they construct/call, not by a list",
+        trusted=["documented semantics of as_ptr/len/from_raw_parts/from_utf8", "moves in safe code are exactly-once (language)"])
+
+
+def check_rows(ck):
+    """Losslessness of every conversion row (shared by C02, whose pair table relies on it)."""
     f = facts.cfg_cglue()
     ck.unit("cglue lib (default features)")
     fns = f.fns("cglue-lib")
@@ -192,9 +203,3 @@ def run(tier):
     names = {fn["path"] for fn in fns}
     for need in ("cglue::slice::CSliceMut::<'a, T>::as_slice_mut", "<cglue::slice::CSliceMut<'a, T> as std::ops::DerefMut>::deref_mut"):
         ck.require(need in names, "function %s" % need)
-    return ck.finish(
-        "every function of cglue that builds a CSliceRef/CSliceMut, rebuilds a slice from one, decides UTF-8 validity, or converts between "
-        "Option/Result/tuples and their C forms is checked by origin tracing over its MIR: (as_ptr,len) of one argument in, "
-        "(data,len) of one view out, no length branch, variant V -> variant V with payload field i moved to field i, no calls",
-        rule_text="obligation = one (function, clause); functions are discovered by what they construct/call, not by a list",
-        trusted=["documented semantics of as_ptr/len/from_raw_parts/from_utf8", "moves in safe code are exactly-once (language)"])
